@@ -296,3 +296,12 @@ func convExpr(e ast.Expr) bn.Expr {
 	}
 	panic(fmt.Sprintf("unknown expression node %T", e))
 }
+
+// stringLiteralProbe asks the real lexer what literal it attaches to a string.
+func stringLiteralProbe(s string) interface{} {
+	toks := lexer.NewScanner([]rune("\"" + s + "\"")).ScanTokens()
+	if len(toks) >= 1 && toks[0].Type == token.STRING {
+		return toks[0].Literal
+	}
+	return s
+}
